@@ -21,10 +21,16 @@ CLAIMED = {
         "SQLite quote doubling; x'..' and bytea hex) applied to the model's literal consumes exactly the literal and decodes "
         "exactly the value (C03_string/char/bytes_literal_roundtrip, MySQL COMMENT and ENUM labels). The literal writers "
         "(coq/Model/Literal.v, LitPos.v) are hand-written from the code and tied byte-exactly to /repo at every inlining "
-        "position; the extracted engine lexers additionally decode the implementation's own output on every case.",
+        "position; the extracted engine lexers additionally decode the implementation's own output on every case. The Json "
+        "arm and the text / char / bytes elements of Array values are covered the same way: model = position template around "
+        "value_to_string (coq/Model/LitValue.v), and the literal(s) the implementation writes must decode, under the engine "
+        "lexer (arrays: coq/Spec/LitArrayOracle.v), to serde_json's text / to the elements.",
    note="Trusted: Coq kernel; the engine lexers in coq/Spec/EngLex.v (written from the MySQL/Postgres/SQLite manuals: default "
         "sql_mode, standard_conforming_strings=on, utf8 connection); extraction, driver, harness, generators. Opaque formatters "
-        "(dates, decimals, uuid, json text) are not modelled here. Print Assumptions: closed under the global context.",
+        "(dates, decimals, uuid) are not modelled here; serde_json's text of a Json value is an external formatter too: it is "
+        "computed by the harness (harness/src/valueenc.rs, op venc: serde_json::to_string called directly, never through "
+        "sea-query), travels with the case and is what the literal must decode to - that call is trusted. The check runs "
+        "the harness with all value types enabled (feature set fa). Print Assumptions: closed under the global context.",
    technique="Coq proof (induction over strings against engine lexer automata) + differential correspondence + decode of implementation output", ref="§6 C03"),
  "C16": dict(
    text="Coq theorems over every input string and every alphabetic-classification function: tokenize terminates (fuel "
